@@ -159,6 +159,11 @@ def to_workbook_dict(form, with_headers=True):
     for name, (head, rows) in to_sheets(form).items():
         pos = {h: i for i, h in enumerate(head)}
         wb[name] = [dict(sorted(r.items(), key=lambda kv: pos.get(kv[0], len(pos)))) for r in rows]
+        if name in form.get("empty_cells", {}):
+            # a dict workbook built the csv.DictReader way: every row has every column, "" where the sheet has nothing
+            cols = list(head) + [c for c in form["empty_cells"][name] if c not in head]
+            wb[name] = [({c: r.get(c, "") for c in cols} if r else r) for r in wb[name]]
+            head = cols
         if with_headers:
             wb[name + "_header"] = [{h: None for h in head}]
         names.append(form.get("sheet_names", {}).get(name, name))
